@@ -77,9 +77,11 @@ claim('C02',
       "remainder is non-zero and the signs differ / agree), keep a temporary copy of the divisor when it is an output, and raise DIVIDE_BY_ZERO iff d == 0. "
       "mpz_tdiv_qr (six partitions in which an output aliases an input or n == d): limb-level glue over an ASSUMED shape contract of mpn_tdiv_qr - "
       "|n| < |d| short-cut, temporary copies, the divider sees the original operand limbs, normal divisor top limb, non-overlap, quotient/remainder "
-      "sizes and signs, well-formed results. mpz_tdiv_r (four partitions) likewise.",
+      "sizes and signs, well-formed results. mpz_tdiv_r and mpz_tdiv_q (four partitions each) likewise. mpz_tdiv_ui/fdiv_ui/cdiv_ui and mpz_tdiv_r_ui/fdiv_r_ui/"
+      "cdiv_r_ui: return value |r| and stored remainder follow the rounding rule (d - t exactly when the truncated remainder t is non-zero and the sign "
+      "condition holds), DIVIDE_BY_ZERO iff d == 0, over an ASSUMED mpn_mod_1.",
       TB + "In the floor/ceiling glue mpz_tdiv_qr/q/r are ASSUMED (uninterpreted quotient/remainder with sgn r in {0, sgn n}, |r| < |d|); values are 64-bit tokens for the interpreted "
-      "+/- steps. NOT covered: the quotient/remainder VALUES of the truncating family (mpn_tdiv_qr is assumed), mpz_tdiv_q, all _ui and _2exp forms, mpn_tdiv_qr/divrem/divrem_1/mod_1, divexact/divisible/congruent, "
+      "+/- steps. NOT covered: the quotient/remainder VALUES of the truncating family (mpn_tdiv_qr is assumed), the _q_ui/_qr_ui and all _2exp forms, mpn_tdiv_qr/divrem/divrem_1/mod_1, divexact/divisible/congruent, "
       "and the word-division primitives (undecided by SAT, DESIGN 8).", technique='contract-based glue proof against assumed callee contracts (value tokens, CBMC)')
 claim('C17',
       "mpz_inp_raw: for EVERY 4-byte header the body region lies inside the (re)allocated block (no out-of-bounds write for any byte stream), the header "
@@ -109,18 +111,22 @@ claim('C18',
 claim('C19',
       "Range post-conditions with the generator behind _gmp_rand as an assumed contract: gmp_urandomb_ui < 2^bits; gmp_urandomm_ui in [0,n-1] "
       "including the 80-iteration fallback (loop unwound completely) and DIVIDE_BY_ZERO exactly for n == 0; mpn_urandomm: result < modulus "
-      "(highest differing limb smaller, limbs above equal); mpz_urandomb: well formed, non-negative, below 2^nbits for every nbits.",
-      TB + "The generators (Mersenne Twister, LC) are ASSUMED to fill ceil(nbits/64) limbs with zero bits above nbits; no unit covers them, nor "
+      "(highest differing limb smaller, limbs above equal); mpz_urandomb: well formed, non-negative, below 2^nbits for every nbits. randget_lc (thorough tier): the "
+      "LC generator meets that assumed generator contract for every m2exp <= 2^30 and every nbits - no bit at or above nbits, no write outside the destination - "
+      "over an assumed contract of one lc() step (defect ea6e797 was found here). randseed_lc: after seeding every state limb is the limb of seed mod 2^m2exp or "
+      "zero, so nothing of the previous state survives (reproducibility of re-seeded states).",
+      TB + "The Mersenne Twister is ASSUMED to fill ceil(nbits/64) limbs with zero bits above nbits (no unit); lc() (one LC step: mpn_mul, add, shift) is assumed; no unit covers "
       "mpz_urandomm, mpz_rrandomb, mpn_randomb/rrandom, mpf_urandomb, gmp_randinit_set, seeding reproducibility or the statistical clauses. "
       "Termination of rejection loops is not proved.")
 
 claim('C07',
       "Glue only, over ASSUMED gcd/gcdext/divexact/mul on value tokens: mpz_invert reports existence exactly when x != 0, |n| > 1 and gcd(x,n) == 1 and "
       "returns the cofactor reduced into [0,|n|) for every sign of n and every aliasing; mpz_lcm (multi-limb operands) returns |(u/gcd(u,v))*v|, 0 for a "
-      "zero operand; inputs that are not the result are unchanged.",
+      "zero operand; inputs that are not the result are unchanged. mpz_gcd_ui (limb level, over an ASSUMED mpn_gcd_1): gcd(0,v) = v, gcd(u,0) = |u| stored limb "
+      "for limb and returned only when it fits, otherwise one single-limb gcd whose result is returned and stored; NULL result and w == u.",
       TB + "NOTHING under the gcd algorithms is verified: mpn_gcd, mpn_gcd_1, mpn_gcdext, HGCD, Lehmer and all Jacobi/Kronecker code are assumed or not "
-      "covered; mpz_gcd, mpz_gcd_ui, mpz_gcdext, mpz_lcm_ui, the single-limb paths of mpz_lcm and every symbol function have no unit. The claim is the "
-      "argument/sign/range handling of two functions.", technique='contract-based glue proof against assumed callee contracts (value tokens, CBMC)')
+      "covered; mpz_gcd, mpz_gcdext, mpz_lcm_ui, the single-limb paths of mpz_lcm and every symbol function have no unit. The claim is the "
+      "argument/sign/range handling of three functions.", technique='contract-based glue proof against assumed callee contracts (value tokens, CBMC)')
 na('C08', 'no unit built in this round: only argument-handling glue of mpz_powm/pow_ui over ASSUMED REDC/powm kernels would be in reach (DESIGN 6 C08, 11.4)')
 na('C09', 'core slice attempted and undecided: the modexact identity behind the perfect-square residue filters did not come back from kissat in 10 min per divisor, the whole-function form in 30 min (DESIGN 11.3); Newton/Zimmermann root iterations are out of reach')
 claim('C13',
